@@ -38,7 +38,25 @@
  *          syntax), with no whitespace / whitespace in every gap, x 9 keys:
  *          json_find == offset of the first matching member's value, else end.
  *
- * Not covered: base-64/hex inputs longer than 8 characters, 32/64-bit values
+ * --deep (given by ./check to the thorough tier only; everything above stays,
+ * these are added or widened):
+ *  b64rt   {00 01 7f 80 ff 'A'}^4..10; b64tail: EVERY 3-byte string followed by
+ *          a 4th byte 4k + (k mod 4), k = 0..63: complete first group x the
+ *          one-byte padding case (2^30 strings).
+ *  b64acc  12 symbols {A B / + = * NUL a - _ LF 9}^0..8 (URL-safe alphabet
+ *          characters and line feeds must be rejected).
+ *  hexacc  {0 9 a F g NUL}^0..11;  hexrt  {00 01 7f 80 ff 'A'}^2..8 and EVERY
+ *          byte string of length 2 and 3 (hexall).
+ *  endian  32-bit: bytes in {00 01 02 7f 80 81 fe ff}^4; 64-bit: bytes in
+ *          {00 01 7f 80 fe ff}^8 (1 679 616 values), offsets 0..7.
+ *  addr    IPv4 octets {0 1 9 10 19 20 99 100 127 128 199 200 249 250 254 255}^4
+ *          x ports {1 80 9999 65535 256 32768} x both forms; IPv6 groups
+ *          {0 1 abcd ffff 10 a0b}^8 x 6 forms x 4 ports; every octet value
+ *          0..255 in the first and in the last position and every port 1..65535
+ *          (addr4oct, addrport).
+ *  (the deep sections skip the inputs the standard sections already ran.)
+ *
+ * Not covered: base-64/hex inputs longer than 10 characters, 32/64-bit values
  * with other byte patterns, IPv6 scope ids, host names (never resolved: the
  * harness's getaddrinfo answers numeric literals only), JSON documents that
  * are not objects built from the listed names/values.
@@ -58,7 +76,8 @@
 #include "sock_util.h"
 #include "sysendian.h"
 
-static int b64_maxlen = 6, acc_maxlen = 6, hex_maxlen = 6, json_maxm = 3;
+static int b64_maxlen = 6, acc_maxlen = 6, hex_maxlen = 6, hexrt_maxlen = 6, json_maxm = 3;
+static int deep;		/* --deep given: bounds beyond thorough */
 
 /* Per-process counters, flushed to the shared ones at the end of each unit. */
 static uint64_t n_eval, n_b64acc_ok, n_b64acc_rej, n_hex_ok, n_hex_rej, n_json_found, n_json_end;
@@ -90,7 +109,7 @@ nontrivial(const char * set, const char * tag, const void * desc, size_t len)
 /* ================================================================== */
 /* base-64                                                             */
 /* ================================================================== */
-#define B64MAX 8
+#define B64MAX 10
 static uint8_t * b64_in[B64MAX + 1];		/* exact-size inputs */
 static struct gblk b64_enc[B64MAX + 1];	/* b64len(len)+1 */
 static struct gblk b64_dec[B64MAX + 1];	/* (b64len/4)*3 */
@@ -116,7 +135,7 @@ b64_setup(void)
 static void
 case_b64rt(const uint8_t * x, size_t len)
 {
-	char ref[16], ossl[16];
+	char ref[24], ossl[24];
 	char * enc;
 	uint8_t * dec;
 	size_t * outlen;
@@ -178,7 +197,7 @@ static int acc_ready;
 static void
 case_b64acc(const uint8_t * s, size_t len)
 {
-	uint8_t refout[8];
+	uint8_t refout[12];
 	size_t * outlen;
 	size_t reflen = 0, l;
 	int wf, rc;
@@ -863,7 +882,8 @@ case_json(const uint8_t * desc, size_t len)
 /* Enumeration units                                                   */
 /* ================================================================== */
 static const uint8_t B64BYTES[6] = { 0x00, 0x01, 0x7f, 0x80, 0xff, 'A' };
-static const uint8_t B64ACC[8] = { 'A', 'B', '/', '+', '=', '*', 0x00, 'a' };
+static const uint8_t B64ACC[12] = { 'A', 'B', '/', '+', '=', '*', 0x00, 'a', /* --deep only: */ '-', '_', '\n', '9' };
+static int b64acc_nsym = 8;
 static const uint8_t HEXACC[6] = { '0', '9', 'a', 'F', 'g', 0x00 };
 
 /* all byte strings of length 3 with first byte u; unit 256: lengths 0..2 */
@@ -930,8 +950,8 @@ enum_strings(uint64_t u, const uint8_t * alpha, int A, int lmin, int lmax, void 
 }
 
 static void unit_b64small(uint64_t u) { enum_strings(u, B64BYTES, 6, 4, b64_maxlen, case_b64rt); }
-static void unit_b64acc(uint64_t u) { enum_strings(u, B64ACC, 8, 0, acc_maxlen, case_b64acc); }
-static void unit_hexrt(uint64_t u) { enum_strings(u, B64BYTES, 6, 2, 6, case_hexrt); }
+static void unit_b64acc(uint64_t u) { enum_strings(u, B64ACC, b64acc_nsym, 0, acc_maxlen, case_b64acc); }
+static void unit_hexrt(uint64_t u) { enum_strings(u, B64BYTES, 6, 2, hexrt_maxlen, case_hexrt); }
 
 static void
 hexacc_one(const uint8_t * s, size_t L)
@@ -1115,6 +1135,194 @@ unit_json(uint64_t u)
 		vf_sample("json: {\"a\\\"b\":[1,{\"a\":2}],<m2>,<m3>} for all 117x117 (m2,m3), no/all whitespace, 9 keys: key a\"b -> offset of the array, key a -> first top-level a (never the nested one)");
 }
 
+
+/* ---------------- --deep sections (zero units without --deep) ---------------- */
+
+/* b64tail: every 3-byte string (first byte = unit) followed by each of the 64 fourth bytes below */
+/* 4th byte 4k + (k mod 4), k = 0..63: every value of the six bits that form the 5th character, every value of the two that go into the 6th */
+#define NB64TAIL 64
+static void
+unit_b64tail(uint64_t u)
+{
+	uint8_t x[4];
+	unsigned a, b, t;
+
+	x[0] = (uint8_t)u;
+	for (a = 0; a < 256; a++) {
+		x[1] = (uint8_t)a;
+		for (b = 0; b < 256; b++) {
+			x[2] = (uint8_t)b;
+			for (t = 0; t < NB64TAIL; t++) {
+				x[3] = (uint8_t)(4 * t + (t & 3));
+				case_b64rt(x, 4);
+			}
+		}
+	}
+	if (u == 0x4d)
+		vf_sample("b64tail: all 65536 x 64 four-byte strings starting with 0x4d, e.g. 4d616e40 -> \"TWFuQA==\" (RFC 4648 = OpenSSL = b64encode; decodes back)");
+}
+
+/* endian: wider byte sets. unit 0..35: 64-bit values by their two most significant bytes; unit 36: 32-bit */
+static void
+unit_endian_deep(uint64_t u)
+{
+	static const uint64_t B6[6] = { 0x00, 0x01, 0x7f, 0x80, 0xfe, 0xff };	/* standard set: 00 01 80 ff */
+	static const uint64_t B8[8] = { 0x00, 0x01, 0x02, 0x7f, 0x80, 0x81, 0xfe, 0xff };
+	uint64_t x;
+	int d[8], i, isnew;
+
+	if (u == 36) {
+		for (d[0] = 0; d[0] < 8; d[0]++) for (d[1] = 0; d[1] < 8; d[1]++) for (d[2] = 0; d[2] < 8; d[2]++) for (d[3] = 0; d[3] < 8; d[3]++) {
+			for (x = 0, isnew = 0, i = 0; i < 4; i++) {
+				x = x * 256 + B8[d[i]];
+				if (B8[d[i]] == 0x02 || B8[d[i]] == 0x7f || B8[d[i]] == 0x81 || B8[d[i]] == 0xfe)
+					isnew = 1;
+			}
+			if (isnew)
+				endian_all_offsets(4, x);
+		}
+		return;
+	}
+	memset(d, 0, sizeof(d));
+	d[0] = (int)(u / 6);
+	d[1] = (int)(u % 6);
+	do {
+		for (x = 0, isnew = 0, i = 0; i < 8; i++) {
+			x = x * 256 + B6[d[i]];
+			if (d[i] == 2 || d[i] == 4)
+				isnew = 1;
+		}
+		if (isnew)
+			endian_all_offsets(8, x);
+	} while (odo_next(d, 2, 8, 6));
+	if (u == 14)
+		vf_sample("endian: le64enc(0x7f7f............) for every value with bytes in {00,01,7f,80,fe,ff} at offsets 0..7: bytes least significant first; be64enc reversed; loads invert");
+}
+
+/* IPv4: 16 octet values (the standard 8 are the first 8) x 6 ports; units 0..255: first two octets */
+static const int V4OCT_DEEP[16] = { 0, 1, 9, 10, 99, 100, 127, 255, 19, 20, 128, 199, 200, 249, 250, 254 };
+static const int PORTS_DEEP[6] = { 1, 80, 9999, 65535, 256, 32768 };
+static void
+unit_addr4_deep(uint64_t u)
+{
+	char desc[64];
+	int ai = (int)(u / 16), bi = (int)(u % 16), ci, di, pi, form;
+
+	for (ci = 0; ci < 16; ci++)
+		for (di = 0; di < 16; di++)
+			for (pi = 0; pi < 6; pi++) {
+				if (ai < 8 && bi < 8 && ci < 8 && di < 8 && pi < 4)
+					continue;	/* run by the standard section */
+				for (form = 0; form < 2; form++) {
+					snprintf(desc, sizeof(desc), "4 %d %d %d %d %d %d", V4OCT_DEEP[ai], V4OCT_DEEP[bi], V4OCT_DEEP[ci], V4OCT_DEEP[di], PORTS_DEEP[pi], form);
+					addr_v4(V4OCT_DEEP[ai], V4OCT_DEEP[bi], V4OCT_DEEP[ci], V4OCT_DEEP[di], PORTS_DEEP[pi], form, desc);
+				}
+			}
+	if (u == 255)
+		vf_sample("addr: \"[254.254.c.d]:p\" and \"254.254.c.d:p\" for 16 x 16 (c,d) x 6 ports incl. 256 and 32768 (byte order of the port visible)");
+}
+
+/* IPv6: 6 group values (the standard 4 are the first 4); units 0..1295: first four groups; all four ports for every form */
+#define NV6DEEP 6
+static const unsigned V6GRP_DEEP[NV6DEEP] = { 0, 1, 0xabcd, 0xffff, 0x10, 0xa0b };
+static void
+unit_addr6_deep(uint64_t u)
+{
+	char desc[128];
+	unsigned g[8];
+	int d[8], i, form, pi, isnew;
+	uint64_t q = u;
+
+	memset(d, 0, sizeof(d));
+	for (i = 3; i >= 0; i--) {
+		d[i] = (int)(q % NV6DEEP);
+		q /= NV6DEEP;
+	}
+	do {
+		for (isnew = 0, i = 0; i < 8; i++) {
+			g[i] = V6GRP_DEEP[d[i]];
+			if (d[i] >= 4)
+				isnew = 1;
+		}
+		if (!isnew)
+			continue;	/* run by the standard section */
+		for (form = 0; form < 6; form++)
+			for (pi = 0; pi < 4; pi++) {
+				snprintf(desc, sizeof(desc), "6 %x %x %x %x %x %x %x %x %d %d", g[0], g[1], g[2], g[3], g[4], g[5], g[6], g[7], PORTS[pi], form);
+				addr_v6(g, PORTS[pi], form, desc);
+			}
+	} while (odo_next(d, 4, 8, NV6DEEP));
+	if (u == 4)
+		vf_sample("addr: 0:0:0:10:* with groups from {0,1,abcd,ffff,10,a0b} in full (\"[0:0:0:10:0:0:0:a0b]:80\"), upper case and with each zero run compressed -> AF_INET6 tuple; print/resolve, serialize, dup equal");
+}
+
+
+/* hexall: every byte string of length 3 with first byte u; unit 256: every string of length 2 */
+static void
+unit_hexall(uint64_t u)
+{
+	uint8_t x[3];
+	unsigned a, b;
+
+	if (u == 256) {
+		for (a = 0; a < 256; a++)
+			for (b = 0; b < 256; b++) {
+				x[0] = (uint8_t)a; x[1] = (uint8_t)b;
+				case_hexrt(x, 2);
+			}
+		return;
+	}
+	x[0] = (uint8_t)u;
+	for (a = 0; a < 256; a++)
+		for (b = 0; b < 256; b++) {
+			x[1] = (uint8_t)a; x[2] = (uint8_t)b;
+			case_hexrt(x, 3);
+		}
+}
+
+/* addr4oct: octet value v = unit in the first and in the last position, the other three from the standard 8, 4 ports, both forms */
+static void
+unit_addr4_oct(uint64_t u)
+{
+	char desc[64];
+	int v = (int)u, pos, i, j, k, pi, form, o[4];
+
+	for (i = 0; i < 16; i++)
+		if (V4OCT_DEEP[i] == v)
+			return;		/* run by addr4 / addr4deep */
+	for (pos = 0; pos < 4; pos += 3)
+		for (i = 0; i < 8; i++) for (j = 0; j < 8; j++) for (k = 0; k < 8; k++)
+			for (pi = 0; pi < 4; pi++)
+				for (form = 0; form < 2; form++) {
+					o[pos] = v;
+					o[pos ? 0 : 1] = V4OCT[i]; o[pos ? 1 : 2] = V4OCT[j]; o[pos ? 2 : 3] = V4OCT[k];
+					snprintf(desc, sizeof(desc), "4 %d %d %d %d %d %d", o[0], o[1], o[2], o[3], PORTS[pi], form);
+					addr_v4(o[0], o[1], o[2], o[3], PORTS[pi], form, desc);
+				}
+}
+
+/* addrport: ports 256u .. 256u+255 (not 0) on one IPv4 address in both forms and on two IPv6 addresses */
+static void
+unit_addr_port(uint64_t u)
+{
+	static const unsigned G1[8] = { 1, 0xabcd, 0, 0, 0, 0, 0, 0xffff }, G2[8] = { 0xffff, 0x10, 0xa0b, 1, 0xabcd, 0xffff, 1, 0x10 };
+	char desc[128];
+	int port, form;
+
+	for (port = (int)u * 256; port < (int)u * 256 + 256; port++) {
+		if (port == 0)
+			continue;
+		for (form = 0; form < 2; form++) {
+			snprintf(desc, sizeof(desc), "4 1 9 100 255 %d %d", port, form);
+			addr_v4(1, 9, 100, 255, port, form, desc);
+		}
+		snprintf(desc, sizeof(desc), "6 %x %x %x %x %x %x %x %x %d %d", G1[0], G1[1], G1[2], G1[3], G1[4], G1[5], G1[6], G1[7], port, 2);
+		addr_v6(G1, port, 2, desc);
+		snprintf(desc, sizeof(desc), "6 %x %x %x %x %x %x %x %x %d %d", G2[0], G2[1], G2[2], G2[3], G2[4], G2[5], G2[6], G2[7], port, 0);
+		addr_v6(G2, port, 0, desc);
+	}
+}
+
 struct section {
 	const char * name;
 	uint64_t nunits;
@@ -1132,6 +1340,14 @@ static struct section SEC[] = {
 	{ "hexrt", 36, unit_hexrt },
 	{ "hex2", 16, unit_hex2 },
 	{ "addru", 2, unit_addru },
+	/* --deep: unit counts are set in main() */
+	{ "b64tail", 0, unit_b64tail },
+	{ "addr6deep", 0, unit_addr6_deep },
+	{ "addr4deep", 0, unit_addr4_deep },
+	{ "endiandeep", 0, unit_endian_deep },
+	{ "hexall", 0, unit_hexall },
+	{ "addr4oct", 0, unit_addr4_oct },
+	{ "addrport", 0, unit_addr_port },
 };
 #define NSEC (int)(sizeof(SEC) / sizeof(SEC[0]))
 
@@ -1184,8 +1400,26 @@ main(int argc, char ** argv)
 	int s;
 
 	vf_init(&argc, argv, "h_codec");
+	for (s = 1; s < argc; s++)
+		if (strcmp(argv[s], "--deep") == 0)
+			deep = 1;
 	if (vf_tier) {
 		b64_maxlen = 8; acc_maxlen = 8; hex_maxlen = 8;
+	}
+	if (deep) {
+		/* beyond thorough; a replay needs no flag (every case record carries its complete input) */
+		b64_maxlen = 10; hex_maxlen = 11; hexrt_maxlen = 8;
+		b64acc_nsym = 12;
+		for (s = 0; s < NSEC; s++) {
+			if (strcmp(SEC[s].name, "b64acc") == 0) SEC[s].nunits = 12 * 12;
+			if (strcmp(SEC[s].name, "b64tail") == 0) SEC[s].nunits = 256;
+			if (strcmp(SEC[s].name, "addr6deep") == 0) SEC[s].nunits = NV6DEEP * NV6DEEP * NV6DEEP * NV6DEEP;
+			if (strcmp(SEC[s].name, "addr4deep") == 0) SEC[s].nunits = 256;
+			if (strcmp(SEC[s].name, "endiandeep") == 0) SEC[s].nunits = 37;
+			if (strcmp(SEC[s].name, "hexall") == 0) SEC[s].nunits = 257;
+			if (strcmp(SEC[s].name, "addr4oct") == 0) SEC[s].nunits = 256;
+			if (strcmp(SEC[s].name, "addrport") == 0) SEC[s].nunits = 256;
+		}
 	}
 	if (vf_replay != NULL)
 		return (replay_one());
@@ -1195,6 +1429,12 @@ main(int argc, char ** argv)
 	    "addr: IPv4 {0,1,9,10,99,100,127,255}^4 x ports {1,80,9999,65535} x {bracketed, host form}, IPv6 {0,1,abcd,ffff}^8 x {full, upper, each maximal zero run as ::} x ports (%s), unix paths 1..107 x 2 patterns; "
 	    "json: objects of 0..%d members from %d names x %d values, whitespace none/all gaps, %d keys",
 	    b64_maxlen, acc_maxlen, hex_maxlen, vf_tier ? "all four for every form" : "all four for the full form, one rotating for the others", json_maxm, NJN, NJV, NJK);
+	if (deep)
+		vf_info("deep_bounds", "in addition: b64 {00,01,7f,80,ff,'A'}^4..10 and every 3-byte string x 64 fourth bytes (4k + k mod 4); acceptance over {A B / + = * NUL a - _ LF 9}^0..8; "
+		    "hex {0 9 a F g NUL}^0..11, round trips {00,01,7f,80,ff,'A'}^2..8 and every byte string of length 2 and 3; endian 32-bit bytes {00,01,02,7f,80,81,fe,ff}^4, 64-bit bytes {00,01,7f,80,fe,ff}^8, offsets 0..7; "
+		    "addr: IPv4 octets {0,1,9,10,19,20,99,100,127,128,199,200,249,250,254,255}^4 x ports {1,80,9999,65535,256,32768} x 2 forms, "
+		    "IPv6 groups {0,1,abcd,ffff,10,a0b}^8 x 6 forms x 4 ports, every octet value 0..255 first and last x {0,1,9,10,99,100,127,255}^3 x 4 ports x 2 forms, "
+		    "every port 1..65535 on one IPv4 address (2 forms) and two IPv6 addresses (inputs already run by the standard sections are skipped)");
 	vf_info("nontrivial_rule", "decoder/resolver/finder accepted the input and a value comparison took place (round trips, accepted candidate encodings, resolved addresses, JSON searches that found a member); one distinct-set per family, each saturating at 2^20 entries (lower bound)");
 	for (s = 0; s < NSEC; s++)
 		total += SEC[s].nunits;
